@@ -4,6 +4,7 @@ package store
 
 import (
 	"fmt"
+	"strings"
 
 	"github.com/whawty/auth/zzverif/simfs"
 )
@@ -128,7 +129,9 @@ func kindAt(sc *scenario, k int) string {
 // power-loss image reachable from the state at return shows the change.
 func propC09(r *Run) {
 	inBubble(r, func(rr *randRecorder) {
+		scenarioOtherDev = true
 		sc := genScenario(r, rr, []string{"add", "update", "set-admin", "remove", "init", "set-admin", "remove"})
+		scenarioOtherDev = false
 		w, op := sc.w, sc.op
 		m := w.model[op.User]
 		hadOld := m != nil
@@ -147,7 +150,37 @@ func propC09(r *Run) {
 		// acknowledged operations on other users (later quiescent points)
 		f := sc.pre.Clone()
 		w.use(f)
+		if !sc.otherDev && op.Kind != "init" && len(sc.users) > 1 && r.Choose("directory-replaced", 6) == 0 {
+			// the store directory is replaced under the running instance (restore from a backup:
+			// mv base base.old; cp -a backup base) after the instance has already written to it;
+			// what is acknowledged afterwards must be durable in the directory now at that path
+			other := sc.users[0]
+			if other == op.User {
+				other = sc.users[1]
+			}
+			if werr, _ := w.runOp(opSpec{Kind: "update", User: other, PW: "warm-up-password"}); werr != nil {
+				r.Fail("harness/clean-op-failed", "warm-up update failed: %v", werr)
+			}
+			snap := f.Snapshot(w.base())
+			if rerr := simfs.Rename(w.base(), w.base()+".old"); rerr != nil {
+				r.Fail("harness/replace-dir", "%v", rerr)
+			}
+			f.PutDir(w.base(), 0o700)
+			for _, p := range sortedKeys(snap) {
+				if e := snap[p]; e.Kind == "file" && !strings.Contains(p[len(w.base()):], "/.tmp") {
+					f.Put(p, []byte(e.Data), e.Perm)
+				}
+			}
+			f.SyncAll()
+			w.logPos = len(f.Log)
+			w.extraOK = func(p string) bool { return strings.HasPrefix(p, w.base()+".old") }
+			r.Count("probe:store-directory-replaced-under-instance")
+		}
 		err, _ := w.runOp(op)
+		if err != nil && sc.otherDev {
+			r.Count("probe:refused-across-devices")
+			return // nothing was acknowledged: nothing has to be durable (C08/C15 judge the refusal)
+		}
 		if err != nil {
 			r.Fail("harness/clean-op-failed", "%s failed: %v", op, err)
 		}
